@@ -254,7 +254,9 @@ impl<'de> Deserialize<'de> for Phase {
             _ => {
                 let p = u8::from_str(&s)
                     .map_err(|_| serde::de::Error::custom("Phase must be \".\", 0, 1, or 2"))?;
-                Ok(Phase(Self::validate(p)))
+                Self::validate(p)
+                    .map(|p| Phase(Some(p)))
+                    .ok_or_else(|| serde::de::Error::custom("Phase must be \".\", 0, 1, or 2"))
             }
         }
     }
